@@ -84,7 +84,7 @@ func (c08) ID() string { return "C08" }
 func (c08) Plan(tier string) fw.Plan {
 	p := fw.Plan{
 		Batches: 16, Cases: 160, TimeoutSec: 900, Level: "exploration",
-		Rule: "one case = one random non-cyclic type system (8–14 composite types over struct map/tuple/stringjoin/listpairs with optional/nullable/both and renames, keyed/kinded/stringprefix unions, string/int enums, typed maps incl. complex stringjoin keys and nullable values, lists, links, Any) bound with bindnode (inferred Go types), and 12 values per composite type drawn from its value space (biased to absents, nulls, empty containers). Monitors per (type, value): type-level builder from the type view (struct fields in random order) → type-level read-out = value, representation read-out = reference reprOf; representation builder from reprOf → the same two read-outs; dag-cbor and dag-json (float-free values) encode of the representation → decode through the representation builder → identical re-encoding and the same typed value up to codec key order of typed maps. Tuple structs only with trailing absents (no other absent has a tuple form). Generated code runs the same monitors inside C13. Non-trivial: composite type of depth ≥2; distinct by (type system, type, value) hash.",
+		Rule:        "one case = one random non-cyclic type system (8–14 composite types over struct map/tuple/stringjoin/listpairs with optional/nullable/both and renames, keyed/kinded/stringprefix unions, string/int enums, typed maps incl. complex stringjoin keys and nullable values, lists, links, Any) bound with bindnode (inferred Go types), and 12 values per composite type drawn from its value space (biased to absents, nulls, empty containers). Monitors per (type, value): type-level builder from the type view (struct fields in random order) → type-level read-out = value, representation read-out = reference reprOf; representation builder from reprOf → the same two read-outs; dag-cbor and dag-json (float-free values) encode of the representation → decode through the representation builder → identical re-encoding and the same typed value up to codec key order of typed maps. Tuple structs only with trailing absents (no other absent has a tuple form). Generated code runs the same monitors inside C13. Non-trivial: composite type of depth ≥2; distinct by (type system, type, value) hash.",
 		Assumptions: []string{"lib/ref/schema is the oracle for the strategy relation (written from the IPLD Schema specification)", "floats are kept out of the dag-json leg (C04's known finding)"},
 		MinEvents:   []string{"type_systems", "types_checked", "values_checked", "view_readouts", "built_type_level", "built_repr_level", "codec_roundtrips", "kind:struct-map", "kind:struct-tuple", "kind:struct-stringjoin", "kind:struct-listpairs", "kind:union-keyed", "kind:union-kinded", "kind:union-stringprefix", "kind:enum-string", "kind:enum-int", "kind:map", "kind:list"},
 	}
